@@ -147,7 +147,12 @@ def setup():
                           list(request_info.client_address), list(request_info.server_address)])
             res = self.spec["result"]
             if res["kind"] == "raised":
-                raise RuntimeError("scripted: handle raises")
+                # whatever a handler raises (its own I/O trouble included) is a failure of the handler: 500
+                raise {"RuntimeError": RuntimeError, "OSError": OSError, "ConnectionRefusedError": ConnectionRefusedError,
+                       "BrokenPipeError": BrokenPipeError, "ConnectionResetError": ConnectionResetError,
+                       "TimeoutError": TimeoutError, "KeyError": KeyError, "UnicodeDecodeError": UnicodeError,
+                       "FileNotFoundError": FileNotFoundError, "EOFError": EOFError, "LookupError": LookupError,
+                       }[res.get("exc", "RuntimeError")]("scripted: handle raises")
             headers = res.get("headers")
             if headers is not None:
                 headers = {bytes.fromhex(k).decode("latin-1"): bytes.fromhex(v).decode("latin-1")
